@@ -429,7 +429,11 @@ func parent(args []string) int {
 		"assumptions": p.Assumptions, "wall_s": time.Since(start).Seconds(), "violations": nviol,
 	}
 	b, _ := json.MarshalIndent(ev, "", " ")
-	if err := os.WriteFile(filepath.Join(verifDir, "evidence", p.ID+".json"), b, 0o644); err != nil {
+	evDir := filepath.Join(verifDir, "evidence")
+	if os.Getenv("VERIF_KEEP_EVIDENCE") != "" {
+		evDir = *scratch // mutation runs against a scratch worktree must not overwrite the evidence of /repo
+	}
+	if err := os.WriteFile(filepath.Join(evDir, p.ID+".json"), b, 0o644); err != nil {
 		fmt.Fprintln(os.Stderr, "INFRA: evidence:", err)
 		return 2
 	}
